@@ -3,7 +3,6 @@ package eventbus
 import (
 	"encoding/json"
 	"fmt"
-	"reflect"
 	"sync"
 )
 
@@ -164,8 +163,9 @@ func RegisterUpcast[From any, To any](bus *EventBus, upcast func(From) To) error
 		return fmt.Errorf("eventbus: upcast function cannot be nil")
 	}
 
-	fromType := reflect.TypeOf((*From)(nil)).Elem().String()
-	toType := reflect.TypeOf((*To)(nil)).Elem().String()
+	// Same naming as EventType(), which honours TypeNamer
+	fromType := eventTypeName[From]()
+	toType := eventTypeName[To]()
 
 	upcastFunc := func(data json.RawMessage) (json.RawMessage, string, error) {
 		var from From
